@@ -164,6 +164,31 @@ def r12(repo, rep):
     rep.ob("R12.I1", forgets, "remove: the removed item's weight is deleted from the weight table", func=rem0, node=rem0.node,
            construct="remove: weight.pop(choice)", detail="" if forgets else "remove() reads the weight but leaves it in self.weight: "
            "a re-inserted item accumulates its old weight while _total_weight only grows by the new one")
+    # ... on EVERY path through remove() of a weighted list (an early return for a special case must not skip it)
+    from ..flow import enumerate_paths
+    bad_path = None
+    npaths = 0
+    for items, term in enumerate_paths(rem0.node.body):
+        if isinstance(term, ast.Raise):
+            continue
+        unweighted = False
+        for it in items:
+            if isinstance(it.stmt, ast.If) and it.arm is not None:
+                tt = short(it.stmt.test).replace(" ", "")
+                if (tt == "self.weighted" and it.arm is False) or (tt == "notself.weighted" and it.arm is True):
+                    unweighted = True
+        if unweighted:
+            continue
+        npaths += 1
+        popped = any(not isinstance(it.stmt, (ast.If, ast.For, ast.While)) and _delta_of_store(it.stmt) is not None
+                     and ("pop" in short(it.stmt) or isinstance(it.stmt, ast.Delete)) for it in items)
+        if not popped and bad_path is None:
+            bad_path = [short(it.stmt.test if isinstance(it.stmt, ast.If) else it.stmt, 50) + ("" if it.arm is None else " -> %s" % it.arm)
+                        for it in items if isinstance(it.stmt, (ast.If, ast.Return))]
+    rep.ob("R12.I1", bad_path is None and npaths > 0, "remove: the weight entry is deleted on every path through a weighted remove()", func=rem0,
+           node=rem0.node, construct="remove: weight.pop on all %d weighted paths" % npaths,
+           detail="" if bad_path is None else "a path through remove() of a weighted list returns without deleting the removed item's weight "
+           "(%s): if that item is inserted again its old weight is still there and selection no longer follows the total" % bad_path)
     rep.floor("R12", "weight stores", nstores, 2)
     # no method that rewrites _total_weight may run between a weight change and its paired total update
     writers = set()
